@@ -11,16 +11,28 @@ use iroh_docs::{
 
 use crate::model::{AKey, Model, E};
 
-thread_local! {
-    static RT: tokio::runtime::Runtime = tokio::runtime::Builder::new_current_thread()
-        .enable_all()
-        .build()
-        .unwrap();
-}
-
-/// Run a future on this thread's current-thread runtime.
+/// Minimal executor for the futures of the raw `Replica` API (they need no reactor: the only
+/// await points are sends to subscriber channels). Works inside and outside a tokio runtime.
 pub fn block_on<F: Future>(f: F) -> F::Output {
-    RT.with(|rt| rt.block_on(f))
+    use std::{
+        sync::Arc,
+        task::{Context, Poll, Wake, Waker},
+    };
+    struct Unpark(std::thread::Thread);
+    impl Wake for Unpark {
+        fn wake(self: Arc<Self>) {
+            self.0.unpark();
+        }
+    }
+    let waker = Waker::from(Arc::new(Unpark(std::thread::current())));
+    let mut cx = Context::from_waker(&waker);
+    let mut f = std::pin::pin!(f);
+    loop {
+        match f.as_mut().poll(&mut cx) {
+            Poll::Ready(v) => return v,
+            Poll::Pending => std::thread::park_timeout(std::time::Duration::from_millis(50)),
+        }
+    }
 }
 
 /// Like `block_on`, for use from inside another runtime's `block_on` (the future is driven on
